@@ -7,7 +7,7 @@ LAWS = ["Reflexive", "FitImpliesCast", "WeakImpliesFit", "MaxAcceptsBoth", "MaxS
 
 
 def run(chk):
-    T.check_laws(chk, LAWS, ["1"] if chk.tier == "quick" else ["1", "2"])
+    T.check_laws(chk, LAWS, ["1", "3"] if chk.tier == "quick" else ["1", "2", "3"])
 
 
 def replay(path):
